@@ -362,7 +362,12 @@ def check_helper(rep, repo, helper, N, r1='C16.R1', r3='C16.R3', r6='C16.R6'):
     pre, entries = X[1], X[2]
     if not dict_mode:
         want_pre = [BIN('Mult', CALL(S('len'), [S('opts')]), ('list', (sent,))), BIN('Mult', ('list', (sent,)), CALL(S('len'), [S('opts')]))]
-        rep.check(pre in want_pre, r1, where, 'one sentinel slot per criterion', got=show(pre), want='len(opts) * [%s]' % show(sent), construct='slot array size')
+        ok_pre = pre in want_pre
+        if not ok_pre and pre[0] == 'comp' and len(pre[1]) == 1 and pre[1][0][1] == TRUE and pre[2] == sent:
+            # [sentinel for _ in opts]  /  [sentinel for _ in range(len(opts))]
+            dom_ = pre[1][0][0][3]
+            ok_pre = dom_ in (S('opts'), CALL(S('range'), [CALL(S('len'), [S('opts')])]))
+        rep.check(ok_pre, r1, where, 'one sentinel slot per criterion', got=show(pre), want='len(opts) * [%s]' % show(sent), construct='slot array size')
         rep.check(sent in (C(0), NONE), r1, where, 'the sentinel cannot be confused with a stored (criterion, extras) tuple', got=show(sent), construct='sentinel value')
     # ---- scatter entries, case split on the kind of the flag value ----
     cases = {'list': [], 'scalar': []}
